@@ -216,4 +216,155 @@ def runItemIR (fuel : Nat) (f : Func) (kind : CtxKind) (n : NodeId) (v : Nat) (c
   | some (rs, _, w) => (itemResOf rs).map fun o => (w.evs, w.ctx, o)
   | none => none
 
+/-! ### `runBatchSequential` vs `itemsSeq`; `markUnprocessed` -/
+
+/-- `runExecWithRetries` before the caller's conversion of its value into a slot -/
+def runItemRaw (kind : CtxKind) (n : NodeId) (v : Nat) (cfg : BatchCfg) (i : Nat) (item : Result)
+    (scr : ItemScript) (ctx : Ctx) : List Ev × Ctx × Except ErrRoot Val :=
+  let (aev, ctx1, ares) :=
+    attempts kind (fun k => .bexec n v i k (execArg cfg.execS item.box)) (fun k f => .bwait n v i k cfg.wait f)
+      scr.exec scr.waitCancel cfg.execS cfg.wait 0 cfg.budget none ctx
+  let (fev, ctx2, eres) := fallbackPhase kind cfg.fb (fun e => .bfb n v i item.box (.user e)) scr.fb ctx1 ares
+  (aev ++ fev, ctx2, eres)
+
+theorem runItem_eq_raw (kind : CtxKind) (n : NodeId) (v : Nat) (cfg : BatchCfg) (i : Nat) (item : Result)
+    (scr : ItemScript) (ctx : Ctx) :
+    runItem kind n v cfg i item scr ctx =
+      (let r := runItemRaw kind n v cfg i item scr ctx
+       (r.1, r.2.1, match r.2.2 with | .ok x => .slot (slotOfVal x) | .error e => .error e)) := by
+  unfold runItem runItemRaw
+  cases h1 : attempts kind (fun k => .bexec n v i k (execArg cfg.execS item.box)) (fun k f => .bwait n v i k cfg.wait f)
+      scr.exec scr.waitCancel cfg.execS cfg.wait 0 cfg.budget none ctx with
+  | mk aev r1 =>
+    cases r1 with
+    | mk ctx1 ares =>
+      cases h2 : fallbackPhase kind cfg.fb (fun e => .bfb n v i item.box (.user e)) scr.fb ctx1 ares with
+      | mk fev r2 =>
+        cases r2 with
+        | mk ctx2 eres => cases eres <;> simp [h2]
+
+structure SeqW where
+  evs : List Ev
+  ctx : Ctx
+  deriving Repr
+
+/-- write `r` into every cell of the window -/
+def fillWindow (h : Heap) (a off n : Nat) (r : Result) : Heap :=
+  match h[a]? with
+  | some cell => h.set a (cell.take off ++ List.replicate (min n (cell.length - off)) r ++ cell.drop (off + n))
+  | none => h
+
+/-- what `markUnprocessed(results, reason)` does to the heap -/
+def markUnprocessedSem (h : Heap) (a off n : Nat) (reason : String) : Heap :=
+  fillWindow h a off n (newErrorResult (.fw (fwTagOf reason)))
+
+/-- world of `runBatchSequential`: `runExecWithRetries` is the model's `runItemRaw` (justified by the refinement
+    theorem of that function), the item's index is recovered from the item itself (`idxOf`). -/
+def seqWorld (kind : CtxKind) (n : NodeId) (v : Nat) (cfg : BatchCfg) (scr : BatchScript) (idxOf : Result → Nat) :
+    World SeqW where
+  call fn args h w :=
+    match fn, args with
+    | "runExecWithRetries", [_, _, .result item] =>
+      let i := idxOf item
+      let r := runItemRaw kind n v cfg i item (scr.item i) w.ctx
+      let w' : SeqW := { evs := w.evs ++ r.1, ctx := r.2.1 }
+      (match r.2.2 with
+       | .ok x => some ([GV.ofVal x, .nil], h, w')
+       | .error e => some ([.nil, .err e], h, w'))
+    | "markUnprocessed", [.slice a off len, .str reason] => some ([], markUnprocessedSem h a off len reason, w)
+    | _, _ => none
+  mcall recv m _ h w :=
+    match recv with
+    | .ref "ctx" _ => if m == "Err" then some ([ctxErrGV w.ctx], h, w) else none
+    | _ => none
+  assert x ty _ :=
+    if ty == "Result" then
+      match x with
+      | .result _ => some (x, true)
+      | .val _ => some (.nil, false)
+      | .nil => some (.nil, false)
+      | _ => none
+    else none
+  field _ _ _ := none
+  mapIndex _ _ _ := none
+  select _ _ := none
+  global _ := none
+
+/-- run the translated `runBatchSequential` on fresh `items` / `results` arrays: (events, context, final slots) -/
+def itemsSeqIR (fuel : Nat) (f : Func) (kind : CtxKind) (n : NodeId) (v : Nat) (cfg : BatchCfg) (scr : BatchScript)
+    (idxOf : Result → Nat) (items : List Result) (ctx : Ctx) : Option (List Ev × Ctx × List Result) :=
+  let heap : Heap := [items, List.replicate items.length ⟨Val.nil, none⟩]
+  match callFunc (seqWorld kind n v cfg scr idxOf) fuel f
+      [ctxH, .node n, .slice 0 0 items.length, .slice 1 0 items.length, .str (if cfg.stop then "stop" else "continue")]
+      heap ⟨[], ctx⟩ with
+  | some ([], h, w) => (h[1]?).map fun slots => (w.evs, w.ctx, slots)
+  | _ => none
+
+/-! ### `Flow.Exec` vs `flowLoop` -/
+
+structure FlowW where
+  evs : List Ev
+  st : RunSt
+  mfuel : Nat        -- fuel of the model's `flowLoop` (ghost: which `runNode env ·` the next `Run` call denotes)
+
+/-- world of `Flow.Exec` for the flow `(start, ops)` in arena `env`: nested `Run` calls are the model's `runNode`
+    (whose own refinement is a separate theorem), the transition table is `buildTable ops`. -/
+def flowWorld (env : Flyt.Env) (start : Option NodeId) (tbl : Table) : World FlowW where
+  call fn args h w :=
+    match fn, args with
+    | "Run", [_, .node id, sh] =>
+      (match storeIdOf sh, w.mfuel with
+       | some sid, mf + 1 =>
+         let r := runNode env mf id sid w.st
+         let w' : FlowW := { evs := w.evs ++ r.1, st := r.2.1, mfuel := mf }
+         (match r.2.2 with
+          | .ok a => some ([.str a, .nil], h, w')
+          | .err e => some ([.str "", .err e], h, w')
+          | _ => none)
+       | _, _ => none)
+    | _, _ => none
+  mcall recv m _ h w :=
+    match recv with
+    | .ref "ctx" _ => if m == "Err" then some ([ctxErrGV w.st.ctx], h, w) else none
+    | _ => none
+  assert x ty _ :=
+    if ty == "*SharedStore" then
+      match storeIdOf x with
+      | some _ => some (x, true)
+      | none => some (.nil, false)
+    else none
+  field x f _ :=
+    match x with
+    | .node _ =>
+      if f == "start" then (match start with | some s => some (.node s) | none => some .nil)
+      else if f == "transitions" then some (.ref "trans" 0)
+      else none
+    | _ => none
+  mapIndex m k _ :=
+    match m, k with
+    | .ref "trans" _, .node cur =>
+      (match assocGet tbl cur with
+       | some _ => some (.ref "inner" cur, true)
+       | none => some (.nil, false))
+    | .ref "inner" cur, .str a =>
+      (match (assocGet tbl cur).bind (assocGet · a) with
+       | some (some nxt) => some (.node nxt, true)
+       | some none => some (.nil, true)
+       | none => some (.nil, false))
+    | _, _ => none
+  select _ _ := none
+  global _ := none
+
+/-- outcome of `Flow.Exec` read off its two return values (the action travels as an `any`) -/
+def flowOutcomeOf : List GV → Option Outcome
+  | [.str a, .nil] => some (.ok a)
+  | [.nil, .err e] => some (.err e)
+  | _ => none
+
+def flowExecIR (fuel : Nat) (f : Func) (env : Flyt.Env) (fid : NodeId) (start : Option NodeId) (ops : List ConnOp)
+    (mfuel : Nat) (sid : StoreId) (st : RunSt) : Option (List Ev × RunSt × Outcome) :=
+  match callFunc (flowWorld env start (buildTable ops)) fuel f [.node fid, ctxH, storeH sid] [] ⟨[], st, mfuel⟩ with
+  | some (rs, _, w) => (flowOutcomeOf rs).map fun o => (w.evs, w.st, o)
+  | none => none
+
 end Flyt.GoIR
